@@ -421,6 +421,80 @@ func TestBuiltinShapes(t *testing.T) {
 	})
 }
 
+// TestPointOpSequences: sequences of the builtins that move, create, retype and delete keys of the point over a
+// small key set, followed by type-directed uses of those keys (length, slice, iteration, arithmetic, index): the
+// interpreter trusts the point's index for the type of a key, so a stale or recycled index entry shows as a crash.
+func TestPointOpSequences(t *testing.T) {
+	keys := []string{"a", "b", "c1", "c2", "message", "t1"}
+	rk.Check(t, "pointops", 6, evid.Scale(8000, 60000), func(t *rapid.T) {
+		key := func(l string) string { return rapid.SampledFrom(keys).Draw(t, l) }
+		val := func() *gen.Node {
+			return sgen.Lit(rapid.SampledFrom([]any{int64(5), 2.5, "x", "", true, nil, []any{int64(1), "a"}, map[string]any{"k": int64(1)}}).Draw(t, "val"))
+		}
+		var prog []*gen.Node
+		n := rapid.IntRange(2, 8).Draw(t, "nops")
+		kinds := ""
+		for i := 0; i < n; i++ {
+			switch k := rapid.IntRange(0, 19).Draw(t, "op"); {
+			case k < 5:
+				prog = append(prog, gen.NCall("rename", gen.NIdent(key("new")), gen.NIdent(key("old"))))
+				kinds += "r"
+			case k < 11:
+				prog = append(prog, gen.NCall("add_key", gen.NIdent(key("k")), val()))
+				kinds += "a"
+			case k < 13:
+				prog = append(prog, gen.NCall("drop_key", gen.NIdent(key("k"))))
+				kinds += "d"
+			case k < 15:
+				prog = append(prog, gen.NCall("set_tag", gen.NIdent(key("k"))))
+				kinds += "t"
+			case k < 16:
+				prog = append(prog, gen.NCall("set_tag", gen.NIdent(key("k")), val()))
+				kinds += "T"
+			case k < 18:
+				prog = append(prog, gen.NCall("cast", gen.NIdent(key("k")), gen.NStr(rapid.SampledFrom([]string{"int", "float", "str", "bool"}).Draw(t, "ty"))))
+				kinds += "c"
+			case k < 19:
+				prog = append(prog, gen.NCall("set_measurement", gen.NIdent(key("k")), gen.NBool(true)))
+				kinds += "m"
+			default:
+				prog = append(prog, gen.NCall("default_time", gen.NIdent(key("k"))))
+				kinds += "z"
+			}
+		}
+		m := rapid.IntRange(1, 3).Draw(t, "nuses")
+		for i := 0; i < m; i++ {
+			k := gen.NIdent(key("use"))
+			switch rapid.IntRange(0, 6).Draw(t, "use") {
+			case 0:
+				prog = append(prog, gen.NSet("u", gen.NCall("len", k)))
+			case 1:
+				prog = append(prog, gen.NSet("u", gen.NSlice(k, gen.NInt(0), gen.NInt(1), nil, false)))
+			case 2:
+				prog = append(prog, gen.NForIn("ch", k, []*gen.Node{gen.NSet("u", gen.NIdent("ch"))}))
+			case 3:
+				prog = append(prog, gen.NSet("u", gen.NBin("+", k, gen.NInt(1))))
+			case 4:
+				prog = append(prog, gen.NSet("u", gen.NBin("+", k, gen.NStr("s"))))
+			case 5:
+				prog = append(prog, gen.NCall("uppercase", k), gen.NCall("strfmt", gen.NIdent("out"), gen.NStr("%v|%d|%s"), k.Clone(), k.Clone(), k.Clone()))
+			default:
+				prog = append(prog, gen.NSet("u", gen.NBin("==", k, gen.NCall("get_key", k.Clone()))), gen.NSet("w", gen.NBin("<", k.Clone(), gen.NInt(3))))
+			}
+		}
+		c := sem.NewCase(gen.FixAll(prog))
+		c.Fields = map[string]any{"a": rapid.SampledFrom([]any{int64(5), 2.5, "str", true}).Draw(t, "a"), "message": "hello 42"}
+		c.Tags = map[string]string{"t1": "tv"}
+		if rapid.Bool().Draw(t, "b") {
+			c.Fields["b"] = rapid.SampledFrom([]any{int64(7), "bs", nil}).Draw(t, "bv")
+		}
+		if rapid.Bool().Draw(t, "t2") {
+			c.Tags["c2"] = "tag c2"
+		}
+		runCase(t, "pointops", c, true, gen.ShapeAll(prog), "point-op-sequence/"+fmt.Sprint(len(kinds)))
+	})
+}
+
 func TestFixedHostile(t *testing.T) {
 	progs := []string{
 		"a = [1,2,3]\nb = a[2:1]", "inf2 = 1.0e308 * 10.0\nadd_key(k, [1, inf2])\nn = len(k)", "add_key(k, {\"a\": nan})\nx = k[0:1]", "l = [1,2,3]\nx = l[3]", "l = [1,2,3]\nl[3] = 1", "l = [1,2,3]\nx = l[-4]", "l = []\nx = l[0]", "l = [[1]]\nl[0][1] += 1", "m = {\"k\": [1]}\nx = m[\"k\"][1]", "x = \"abc\"[1:3:9223372036854775807]", ".[0]", "a = .[0] + 1", ".[0] = 1", "a.b", "a = a.b", "l = [1]\nx = l[-9223372036854775807 - 1]",
